@@ -11,9 +11,27 @@ Inductive ikind := KNearest | KLinear | KPerAxis.
 (* value dtype class: floating (float32/64; complex = two real runs), integer, string *)
 Inductive vdtype := DFloat | DInt | DStr.
 
-(* measured variants of recorded defects (true = defect present in the code under test) *)
-Record variants := { int_raises : bool;      (* per-axis all-'nearest' evaluation on int/str values raises *)
-                     mesh1_raises : bool }.  (* mesh grid with one point along the FIRST axis raises *)
+(* Two defects of the pinned snapshot were repaired in /repo (e032ff0, d20d299).  The model is the
+   REPAIRED code ([current]); the old behaviour stays expressible as the explicit variant [as_found]
+   so that C15/Refuted.v can still say what was wrong with it. *)
+Record variants := { int_raises : bool;      (* old: per-axis all-'nearest' evaluation used the arithmetic path *)
+                     mesh1_raises : bool }.  (* old: mesh grid with one point along the FIRST axis raised *)
+Definition current : variants := {| int_raises := false; mesh1_raises := false |}.
+Definition as_found : variants := {| int_raises := true; mesh1_raises := true |}.
+
+(* ---- calling conventions at the level of array SHAPES (no carrier involved) ----
+   nearest_/linear_/per_axis_interp(x) for a non-meshgrid x of shape [xshape] on a d-dimensional
+   grid: None = ValueError, Some [] = a scalar is returned, Some [N] = an array of N values.
+   _check_interp_input (regenerated: gen_check_array_input) reshapes / classifies / rejects;
+   _Interpolator.__call__ then does x.reshape([ndim, -1]) and out_shape_from_array (regenerated);
+   the factory applies .item() when the input denoted a single point. *)
+Definition array_call_shape (d : nat) (xshape : list nat) : option (list nat) :=
+  match gen_check_array_input d xshape with
+  | None => None
+  | Some (sh, is_scalar) =>
+      if is_scalar then Some []
+      else Some (gen_out_shape_from_array [d; (prodn sh / d)%nat])
+  end.
 
 Section Call.
 Context {T : Type} `{Num T}.
@@ -24,65 +42,72 @@ Inductive outcome := Ok (r : list T) | NonFinite | TypeErr | ValueErr.
 
 Definition schemes_of (k : ikind) (ss : list scheme) (cvs : list (list T)) : list scheme :=
   match k with
-  | KLinear => map (fun _ => SLinear) cvs
+  | KLinear => map (fun _ => gen_linear_scheme) cvs      (* regenerated: interp=['linear'] * d *)
   | KNearest => map (fun _ => SNearest) cvs
   | KPerAxis => ss
   end.
 
-(* the values, per factory and calling convention *)
-Definition run (k : ikind) (ss : list scheme) (cvs : list (list T)) (flat : list T) (i : input) : list T :=
+Definition has_linear (ss : list scheme) : bool :=
+  existsb (fun s => match s with SLinear => true | SNearest => false end) ss.
+
+(* the values, per factory and calling convention.  per_axis_interpolator with all-'nearest'
+   schemes is served by _NearestInterpolator (since d20d299; before: by the per-axis evaluator) *)
+Definition run (var : variants) (k : ikind) (ss : list scheme) (cvs : list (list T)) (flat : list T) (i : input)
+  : list T :=
   let v := vget (map (@length T) cvs) flat in
-  match k, i with
-  | KNearest, IPoints pts => nearest_points cvs v pts
-  | KNearest, IMesh m => nearest_mesh cvs v m
-  | _, IPoints pts => peraxis_points (schemes_of k ss cvs) cvs v pts
-  | _, IMesh m => peraxis_mesh (schemes_of k ss cvs) cvs v m
+  let index_based := match k with
+                     | KNearest => true
+                     | KPerAxis => negb (int_raises var) && gen_peraxis_index_based ss   (* regenerated dispatch *)
+                     | KLinear => false
+                     end in
+  match index_based, i with
+  | true, IPoints pts => nearest_points cvs v pts
+  | true, IMesh m => nearest_mesh cvs v m
+  | false, IPoints pts => peraxis_points (schemes_of k ss cvs) cvs v pts
+  | false, IMesh m => peraxis_mesh (schemes_of k ss cvs) cvs v m
   end.
 
 (* mesh grid of d >= 2 axes with one point along the first axis, not all axes single:
-   np.asarray(mesh, dtype=object) raises ValueError (recorded defect) *)
+   np.asarray(mesh, dtype=object) raised ValueError in the old variant (repaired by e032ff0) *)
 Definition mesh1 (i : input) : bool :=
   match i with
   | IMesh ((x0 :: nil) :: (_ :: _) as m) => existsb (fun xs => negb (length xs =? 1)%nat) m
   | _ => false
   end.
 
-Definition has_linear (ss : list scheme) : bool :=
-  existsb (fun s => match s with SLinear => true | SNearest => false end) ss.
-
 (* _check_interp_input / _Interpolator.__call__ reject (ValueError): points whose dimension is
    not the grid dimension, and an out array of the wrong shape or dtype *)
 Definition out_shape (i : input) : list nat :=
   match i with IPoints pts => [length pts] | IMesh m => map (@length T) m end.
-Fixpoint nats_eqb (a b : list nat) : bool :=
-  match a, b with
-  | [], [] => true
-  | x :: a', y :: b' => (x =? y)%nat && nats_eqb a' b'
-  | _, _ => false
-  end.
-Definition malformed (cvs : list (list T)) (i : input) (outarg : option (list nat * bool)) : bool :=
+(* the ordered `out` checks are REGENERATED from _Interpolator.__call__ (gen_out_check) *)
+Definition rejected (cvs : list (list T)) (i : input) (outarg : option (list nat * bool)) : option errkind :=
   let d := length cvs in
-  (match i with
-   | IPoints pts => existsb (fun p => negb (length p =? d)%nat) pts
-   | IMesh m => negb (length m =? d)%nat
-   end)
-  || match outarg with
-     | Some (sh, dt_ok) => negb (nats_eqb sh (out_shape i)) || negb dt_ok
-     | None => false
-     end.
+  if (match i with
+      | IPoints pts => existsb (fun p => negb (length p =? d)%nat) pts
+      | IMesh m => negb (length m =? d)%nat
+      end) then Some EValueErr
+  else match outarg with
+       | Some (sh, dt_ok) => gen_out_check true (nats_eqb sh (out_shape i)) dt_ok
+       | None => None
+       end.
+Definition malformed (cvs : list (list T)) (i : input) (outarg : option (list nat * bool)) : bool :=
+  match rejected cvs i outarg with Some _ => true | None => false end.
 
-(* integer / string values: only index-based evaluation is defined.  The per-axis evaluator
-   does arithmetic on the values (TypeError) -- for all-'nearest' schemes that is the recorded
-   defect [int_raises]; once repaired, all-'nearest' per-axis evaluation returns node values. *)
+(* integer / string values: only index-based evaluation is defined; the per-axis evaluator does
+   arithmetic on the values (TypeError) whenever some axis is 'linear' *)
 Definition interp_call (var : variants) (k : ikind) (ss : list scheme) (cvs : list (list T)) (dt : vdtype)
            (flat : list T) (i : input) (outarg : option (list nat * bool)) : outcome :=
-  if malformed cvs i outarg then ValueErr
-  else if mesh1_raises var && mesh1 i then ValueErr
+  match rejected cvs i outarg with
+  | Some ETypeErr => TypeErr
+  | Some EValueErr => ValueErr
+  | None =>
+  if mesh1_raises var && mesh1 i then ValueErr
   else match k, dt with
-  | KNearest, _ => Ok (run k ss cvs flat i)
+  | KNearest, _ => Ok (run var k ss cvs flat i)
   | _, DInt | _, DStr =>
-      if int_raises var || has_linear (schemes_of k ss cvs) then TypeErr else Ok (run k ss cvs flat i)
+      if int_raises var || has_linear (schemes_of k ss cvs) then TypeErr else Ok (run var k ss cvs flat i)
   | _, DFloat =>
-      if degenerate (schemes_of k ss cvs) cvs then NonFinite else Ok (run k ss cvs flat i)
+      if degenerate (schemes_of k ss cvs) cvs then NonFinite else Ok (run var k ss cvs flat i)
+  end
   end.
 End Call.
